@@ -1249,6 +1249,23 @@ namespace bloch::compiler {
             }
         }
 
+        // A field may not reuse the name of a field it inherits: a bare name, 'this.f' and 'x.f'
+        // would otherwise be resolved against different classes (declaring, dynamic, static)
+        // and could name different storage.
+        for (auto& [name, info] : m_classes) {
+            for (auto& [fieldName, field] : info.fields) {
+                for (const ClassInfo* base = info.base.empty() ? nullptr : findClass(info.base);
+                     base; base = base->base.empty() ? nullptr : findClass(base->base)) {
+                    if (base->fields.count(fieldName)) {
+                        throw BlochError(ErrorCategory::Semantic, field.line, field.column,
+                                         "field '" + fieldName + "' of class '" + name +
+                                             "' hides the field of the same name in base class '" +
+                                             base->name + "'");
+                    }
+                }
+            }
+        }
+
         std::unordered_set<std::string> validated;
         std::function<void(const std::string&)> validateClass = [&](const std::string& name) {
             if (validated.count(name))
